@@ -478,27 +478,7 @@ func checkC05(c *Ctx, r *Report) {
 	}
 
 	// ---- C05-block
-	r.Rule("C05-block", 1, "at most MaxBlockSize proposals are emitted per block")
-	if fn := c.Func("fbb", "(*Session).sendOutbound"); fn != nil {
-		// the slice ranged over by the loop that contains the proposal line Sprintf
-		var ranged ssa.Value
-		var at ssa.Instruction
-		for _, ci := range callsTo(fn, false, "fmt.Sprintf") {
-			if s, ok := constString(ci.Common().Args[0]); ok && strings.HasPrefix(s, "F%c") {
-				ranged, at = rangedSlice(ci.Block())
-			}
-		}
-		o := r.Add("C05-block", fnName(fn), "len(block) <= MaxBlockSize", c.pos(fn.Pos()))
-		max, _ := constIntOf(p, "MaxBlockSize")
-		switch {
-		case ranged == nil:
-			o.Bad("could not identify the slice of proposals the block loop ranges over (unresolved)")
-		case pr.LE(ranged, true, 0, nil, false, max, at):
-			o.OK("the proposals emitted are a slice proven to hold at most %d entries (truncation dominates the loop)", max)
-		default:
-			o.Bad("the slice of proposals emitted (%s) is not proven to hold at most MaxBlockSize=%d entries: more than five proposals per block", pathOf(ranged), max)
-		}
-	}
+	blockRule(c, r, pr, "C05-block")
 
 	// ---- C05-sid
 	r.Rule("C05-sid", 1, "handshake requires B2")
@@ -535,4 +515,38 @@ func edgeCond(pred, to *ssa.BasicBlock) []Cond {
 		return []Cond{{ifi.Cond, pred.Succs[0] == to, ifi}}
 	}
 	return nil
+}
+
+// blockRule: the slice of proposals emitted in one block holds at most MaxBlockSize entries.
+func blockRule(c *Ctx, r *Report, pr *prover, rule string) {
+	p := c.Pkg("fbb")
+	r.Rule(rule, 1, "at most MaxBlockSize proposals are emitted per block")
+	fn := c.Func("fbb", "(*Session).sendOutbound")
+	if fn == nil {
+		r.Fail(rule, "anchor sendOutbound not found")
+		return
+	}
+	var ranged ssa.Value
+	var at ssa.Instruction
+	for _, ci := range callsTo(fn, false, "fmt.Sprintf") {
+		if s, ok := constString(ci.Common().Args[0]); ok && strings.HasPrefix(s, "F%c") {
+			ranged, at = rangedSlice(ci.Block())
+		}
+	}
+	o := r.Add(rule, fnName(fn), "len(block) <= MaxBlockSize", c.pos(fn.Pos()))
+	max, _ := constIntOf(p, "MaxBlockSize")
+	switch {
+	case ranged == nil:
+		o.Bad("could not identify the slice of proposals the block loop ranges over (unresolved)")
+	case pr.LE(ranged, true, 0, nil, false, max, at):
+		o.OK("the proposals emitted are a slice proven to hold at most %d entries (truncation dominates the loop)", max)
+	default:
+		o.Bad("the slice of proposals emitted (%s) is not proven to hold at most MaxBlockSize=%d entries: more than five proposals per block", pathOf(ranged), max)
+	}
+	// the answers are parsed against, and the transfers dispatched over, the same truncated block
+	for _, ci := range callsTo(fn, false, "fbb.parseProposalAnswer") {
+		same := ci.Common().Args[1] == ranged
+		r.Check(rule, fnName(fn), "answers matched against the emitted block", c.pos(ci.Pos()), same,
+			"parseProposalAnswer receives the same (truncated) slice that was emitted", "the answers are matched against a different slice than the block that was emitted")
+	}
 }
